@@ -12,7 +12,10 @@ the decode image of the configured datapoint (all payloads of <= 2 octets decode
 by the real DPT class; integers / binary32 / k*step for the rest).
   * request representable (it IS a value of the decode image, compared exactly) -> the device must report exactly it;
   * request strictly between two representable values -> the device must report
-    one of the two neighbours (= within one step); which of the two is recorded
+    one of the two neighbours (= within one step) AND, for setters that hand the
+    value straight to one remote value, exactly what that remote value's own
+    to_knx/from_knx makes of the request (the device layer adds no error of its
+    own, e.g. by skipping a telegram); which of the two neighbours is recorded
     (`reported_not_nearest`), not judged: the rounding mode of a DPT is the
     business of the DPT properties (C08/C09).
 Values a setter refuses (any exception) are counted, not judged.
@@ -361,8 +364,8 @@ class RLightBasic(Row):
         if op[0] in ("set_on", "set_off"):
             return [("state", dev.state, op[0] == "set_on", None)]
         if op[0] == "set_brightness":
-            return [("current_brightness", dev.current_brightness, op[1], scaling_rep(0, 255))]
-        return [("current_tunable_white", dev.current_tunable_white, op[1], scaling_rep(0, 255))]
+            return [("current_brightness", dev.current_brightness, op[1], scaling_rep(0, 255), dev.brightness)]
+        return [("current_tunable_white", dev.current_tunable_white, op[1], scaling_rep(0, 255), dev.tunable_white)]
 
 
 class RLightColor(Row):
@@ -445,7 +448,19 @@ class RLightHS(Row):
     def gen_ops(self, rng, cfg, dev, n):
         from xknx.dpt import DPTAngle, DPTScaling
 
-        return [["set_hs_color", [dpt_rep(DPTAngle).sample(rng), dpt_rep(DPTScaling).sample(rng)]] for _ in range(n)]
+        ops = []
+        h_prev, s_prev = dpt_rep(DPTAngle).sample(rng), dpt_rep(DPTScaling).sample(rng)
+        for _ in range(n):
+            c = rng.random()
+            if c < 0.5:
+                # carried state: a hue / saturation less than one unit away from the previous request, usually another raw octet
+                h_new = min(360.0, max(0.0, round(round(h_prev) + rng.uniform(-0.99, 0.99), 2)))
+                s_new = min(100.0, max(0.0, round(round(s_prev) + rng.uniform(-0.99, 0.99), 2))) if rng.random() < 0.4 else dpt_rep(DPTScaling).sample(rng)
+            else:
+                h_new, s_new = dpt_rep(DPTAngle).sample(rng), dpt_rep(DPTScaling).sample(rng)
+            ops.append(["set_hs_color", [h_new, s_new]])
+            h_prev, s_prev = h_new, s_new
+        return ops
 
     async def call(self, h, dev, cfg, op):
         await dev.set_hs_color(tuple(op[1]))
@@ -454,8 +469,8 @@ class RLightHS(Row):
         from xknx.dpt import DPTAngle, DPTScaling
 
         cur = dev.current_hs_color
-        return [("hue", None if cur is None else cur[0], op[1][0], dpt_rep(DPTAngle)),
-                ("saturation", None if cur is None else cur[1], op[1][1], dpt_rep(DPTScaling))]
+        return [("hue", None if cur is None else cur[0], op[1][0], dpt_rep(DPTAngle), dev.hue),
+                ("saturation", None if cur is None else cur[1], op[1][1], dpt_rep(DPTScaling), dev.saturation)]
 
 
 class RLightXYY(Row):
@@ -540,7 +555,7 @@ class RLightColorTemp(Row):
         await dev.set_color_temperature(op[1])
 
     def observe(self, dev, cfg, op, pre):
-        return [("current_color_temperature", dev.current_color_temperature, op[1], self.rep(cfg))]
+        return [("current_color_temperature", dev.current_color_temperature, op[1], self.rep(cfg), dev.color_temperature)]
 
 
 class RFan(Row):
@@ -777,7 +792,7 @@ class RClimateTarget(Row):
             want = max(want, cfg["min_temp"])
         if cfg["max_temp"] is not None:
             want = min(want, cfg["max_temp"])
-        return [("target_temperature", dev.target_temperature.value, want, dpt_rep(DPTTemperature))]
+        return [("target_temperature", dev.target_temperature.value, want, dpt_rep(DPTTemperature), dev.target_temperature)]
 
 
 class RClimateShift(Row):
@@ -1036,13 +1051,22 @@ class RNumeric(Row):
                     v = math.nextafter(float(v), rng.choice((-math.inf, math.inf)))  # neighbour rule
                 ops.append(["set", v])
             return ops
-        return [["set", rep.sample(rng, ints=cfg.get("ints", False))] for _ in range(n)]
+        ops = []
+        prev = None
+        for _ in range(n):
+            v = rep.sample(rng, ints=cfg.get("ints", False))
+            if prev is not None and isinstance(rep, ImageRep) and rng.random() < 0.25:
+                # carried state: less than one unit away from the previous request
+                v = min(rep.v[-1], max(rep.v[0], round(prev + rng.uniform(-0.99, 0.99), 2)))
+            ops.append(["set", v])
+            prev = v
+        return ops
 
     async def call(self, h, dev, cfg, op):
         await dev.set(op[1])
 
     def observe(self, dev, cfg, op, pre):
-        return [("resolve_state", dev.resolve_state(), op[1], self.rep(cfg))]
+        return [("resolve_state", dev.resolve_state(), op[1], self.rep(cfg), dev.sensor_value)]
 
 
 class RExposeOther(Row):
@@ -1274,7 +1298,7 @@ class RScalingProbe(Row):
         dev.remote_value.set(op[1])
 
     def observe(self, dev, cfg, op, pre):
-        return [("value", dev.remote_value.value, op[1], scaling_rep(cfg["range_from"], cfg["range_to"]))]
+        return [("value", dev.remote_value.value, op[1], scaling_rep(cfg["range_from"], cfg["range_to"]), dev.remote_value)]
 
 
 GA_DPT_MODES = ("none", "own", "relative", "unrelated")
@@ -1398,9 +1422,21 @@ def run_config(ctx, row: Row, cfg: dict, ops: list | None, seed_key: str, n_valu
         found.append(mech)
 
     def check(obs: list, op: list, phase: str) -> bool:
-        for label, got, want, rep in obs:
+        for item in obs:
+            label, got, want, rep = item[:4]
+            codec = item[4] if len(item) > 4 else None
             ctx.ev()
             bad, tag = judge(got, want, rep)
+            if not bad and codec is not None and got is not None and tag.startswith("between"):
+                # the device layer must not add an error of its own: it reports what its remote value's own encoding of the
+                # request decodes to (which of the two neighbours that is stays the datapoint's business)
+                try:
+                    through_codec = codec.from_knx(codec.to_knx(want))
+                except Exception:  # noqa: BLE001
+                    through_codec = got
+                ctx.count("judged_against_codec_round_trip")
+                if fieldwise(through_codec) != fieldwise(got):
+                    bad = "not-the-value-the-datapoint-encodes-the-request-to"
             ctx.count("judged_" + tag if tag != "out_of_range_not_judged" else tag)
             if tag == "between_not_nearest":
                 ctx.count("reported_not_nearest")
@@ -1465,7 +1501,7 @@ def run(ctx):
     ctx.require("setter_calls", "telegrams_looped_back", "judged_exact", "judged_representable", "judged_between",
                 "calls[Climate.set_setpoint_shift]", "calls[Climate.set_target_temperature]", "calls[Cover.set_position]",
                 "calls[Switch.set_on]", "calls[Light.set_brightness]", "calls[Fan.set_speed]", "calls[ClimateMode.set_operation_mode]",
-                "calls[NumericValue.set]", "calls[Cover.sequence]", "calls[DateTime.set]", "climate_base_temperature_exactly_zero", "ga_dpt_table_own", "ga_dpt_table_relative", "ga_dpt_table_unrelated", "ga_dpt_table_none",
+                "calls[NumericValue.set]", "calls[Cover.sequence]", "calls[DateTime.set]", "judged_against_codec_round_trip", "climate_base_temperature_exactly_zero", "ga_dpt_table_own", "ga_dpt_table_relative", "ga_dpt_table_unrelated", "ga_dpt_table_none",
                 "ga_dpt_relative_parent", "ga_dpt_relative_child", "ga_dpt_entries_installed")
     n_cfg = ctx.scale(20, 60)
     n_val = ctx.scale(24, 40)
